@@ -771,7 +771,7 @@ def replay_labelopt(case):
             if case.get('via_reader'):
                 frame = b"\xd3" + len(payload).to_bytes(2, "big") + payload
                 frame += crc24q_ref(frame).to_bytes(3, "big")
-                ev, end, _ = drive_reader(io.BytesIO(frame), 2, labelmsm=o)
+                ev, end, _ = drive_reader(io.BytesIO(frame), 2, labelmsm=o, validate=case.get('validate', 1))
                 ms = [e[2] for e in ev if e[0] == 'pair']
                 return ms[0] if len(ms) == 1 else None
             return RTCMMessage(payload=payload, labelmsm=o)
